@@ -535,7 +535,8 @@ func run(c *vh.Ctx) {
 		"time limit; its emitted code is also sent to the Lean verifier. Streams: fixed corpus (witnesses of F03/F04 and the named " +
 		"error clauses), directed matrix (every numeric argument position of every builtin and every special variable × value " +
 		"classes incl. NaN/±Inf/±2^63/1e30/invalid UTF-8/NUL, via BEGIN and via Config.Vars), grammar-generated programs, byte-level " +
-		"mutants of the repository's test programs. Non-trivial = the program compiled to at least 4 code words.")
+		"mutants of the repository's test programs, host-side faults (every I/O site x failing Output/Error/Stdin/OpenFile/ShellCommand x " +
+		"ExecProgram/Execute/ExecuteContext). Non-trivial = the program compiled to at least 4 code words.")
 	dir, err := os.MkdirTemp("", "c02_")
 	if err != nil {
 		panic(err)
